@@ -26,6 +26,9 @@ import (
 var coll = ev.New("C08")
 
 func TestMain(m *testing.M) {
+	if os.Getenv("VERIF_SSTLS_HELPER") != "" {
+		os.Exit(cutHelper()) // re-executed under a file-size limit by TestC08CutWrite
+	}
 	code := m.Run()
 	coll.Flush("sstlsh")
 	os.Exit(code)
